@@ -203,6 +203,7 @@ fn c16_est<E: Est>(out: &mut Out, tier: &str, rng: &mut Rng) {
     if out.next_case() {
         // the empty estimator is the same however it is constructed
         out.x(words(&E::default()) == words(&E::new()), || format!("{}::default() = {} differs from {}::new() = {}", ty, words(&E::default()), ty, words(&E::new())));
+        out.t(ty, "new", "", "", &words(&E::new()));
         observe(out, &E::default());
     }
     let reps = if tier == "thorough" { 12 } else { 4 };
@@ -260,6 +261,9 @@ fn c16_pairs(out: &mut Out, tier: &str, rng: &mut Rng) {
     let reps = if tier == "thorough" { 12 } else { 4 };
     if out.next_case() {
         out.x(words(&Covariance::default()) == words(&Covariance::new()), || "Covariance::default() differs from new()".to_string());
+        out.t("Covariance", "new", "", "", &words(&Covariance::new()));
+        out.t("WeightedMean", "new", "", "", &words(&WeightedMean::new()));
+        out.t("WMWE", "new", "", "", &words(&WeightedMeanWithError::new()));
         out.x(words(&WeightedMean::default()) == words(&WeightedMean::new()), || "WeightedMean::default() differs from new()".to_string());
         out.x(words(&WeightedMeanWithError::default()) == words(&WeightedMeanWithError::new()), || "WeightedMeanWithError::default() differs from new()".to_string());
         out.x(words(&average::Quantile::default()) == words(&average::Quantile::new(0.5)), || "Quantile::default() differs from new(0.5)".to_string());
